@@ -405,12 +405,10 @@ func (p *probeRT) udpSend(payloads [][]byte, r *simnet.Rng) {
 // judge evaluates the zero-reply oracle for this probe after the run.
 func (p *probeRT) judge() {
 	w := p.w
-	w.mu.Lock()
-	w.probes["probe-"+p.p.Kind+"-"+p.p.Transport]++
+	w.probe("probe-" + p.p.Kind + "-" + p.p.Transport)
 	if p.skipped != "" {
 		w.probe("probe-skipped")
 	}
-	w.mu.Unlock()
 	if p.p.Kind == "hostile" || !p.started {
 		return
 	}
